@@ -53,12 +53,11 @@ def tainted(t, tparams=()):
     return False
 
 
-def r_hint(ctx, view):
+def hint_scan(view):
+    """-> (number of source sites, [(fn key, tainted-params?, [violations])])"""
     prog = view.prog
     vp = view.vp
     fx = view.fx
-    ctx.cur = view
-    # sources
     src_fns = set()
     nsrc = 0
     for f in prog.fns.values():
@@ -66,10 +65,9 @@ def r_hint(ctx, view):
             if "func" in t and t["func"]["key"] == "std::iter::Iterator::size_hint" and (f.j.get("impl_trait") or "") != "std::iter::Iterator":
                 src_fns.add(f.key)
                 nsrc += 1
-    ctx.floor("R-HINT:sources", nsrc, 3)
     work = [(k, frozenset()) for k in sorted(src_fns)]
     done = set()
-    n = 0
+    out = []
     while work:
         key, tp = work.pop()
         if (key, tp) in done:
@@ -83,7 +81,7 @@ def r_hint(ctx, view):
             targs = [i for i, a in enumerate(args) if tainted(a, tp)]
             if not targs:
                 continue
-            if ci.name in ALLOC_SINKS and not ci.local_callee or (ci.local_callee and ci.name in ALLOC_SINKS):
+            if ci.name in ALLOC_SINKS:
                 bad.append("upper bound of size_hint reaches the allocation request %s (arg %d) at line %d" % (ci.key, targs[0], t["span"]["line"]))
             elif ci.local_callee:
                 callee = prog.fn(ci.local_callee)
@@ -97,7 +95,16 @@ def r_hint(ctx, view):
                     v = vp.rvalue(f, s["rv"])
                     if tainted(v[2], tp) or tainted(v[3], tp):
                         bad.append("upper bound of size_hint enters overflow-checked arithmetic (%s) at line %d" % (s["rv"]["op"], s["span"]["line"]))
-        n += 1
+        out.append((key, bool(tp), bad))
+    return nsrc, out
+
+
+def r_hint(ctx, view):
+    ctx.cur = view
+    nsrc, res = hint_scan(view)
+    ctx.floor("R-HINT:sources", nsrc, 3)
+    for key, tp, bad in res:
+        f = view.prog.fn(key)
         ctx.ob("R-HINT", "%s%s" % (short(key), ":tainted-params" if tp else ""), not bad, f.loc(),
                "; ".join(bad) if bad else "the upper bound of size_hint reaches no allocation request and no checked arithmetic")
 
